@@ -78,6 +78,21 @@ class LpVariable:
     def value(self):
         return self.varValue
 
+    @classmethod
+    def dicts(cls, name, indices, lowBound=None, upBound=None, cat=LpContinuous, indexStart=[]):
+        if not isinstance(indices, (list, tuple, range, set, dict)):
+            indices = list(indices)
+        return {i: cls('%s_%s' % (name, str(i).replace(' ', '_')), lowBound, upBound, cat) for i in indices}
+
+    dict = dicts
+
+    def setInitialValue(self, val, check=True):
+        self.varValue = val
+        return True
+
+    def bounds(self, low, up):
+        self.lowBound, self.upBound = low, up
+
 
 class LpAffineExpression:
     def __init__(self, e=None, constant=0, name=None):
@@ -93,6 +108,9 @@ class LpAffineExpression:
             self.terms[e] = 1
         elif isinstance(e, dict):
             self.terms = dict(e)
+        elif isinstance(e, (list, tuple)) or hasattr(e, '__next__'):
+            for v, c in e:          # PuLP also accepts an iterable of (variable, coefficient) pairs
+                self._addterm(v, c)
         elif _isnum(e):
             self.constant = e
         else:
@@ -106,6 +124,17 @@ class LpAffineExpression:
 
     def copy(self):
         return LpAffineExpression(self)
+
+    def addterm(self, key, value):
+        self._addterm(key, value)
+
+    def value(self):
+        tot = self.constant
+        for v, c in self.terms.items():
+            if v.varValue is None:
+                return None
+            tot = tot + v.varValue * c
+        return tot
 
     def addInPlace(self, other, sign=1):
         if other is None:
@@ -198,6 +227,23 @@ class LpConstraint(LpAffineExpression):
 
 def lpSum(vector):
     return LpAffineExpression().addInPlace(vector)
+
+
+def lpDot(v1, v2):
+    """dot product of two lists (of numbers / variables / expressions)"""
+    if not isinstance(v1, (list, tuple)) and not isinstance(v2, (list, tuple)):
+        return v1 * v2
+    if not isinstance(v1, (list, tuple)):
+        v1 = [v1] * len(v2)
+    if not isinstance(v2, (list, tuple)):
+        v2 = [v2] * len(v1)
+    return lpSum([lpDot(a, b) for a, b in zip(v1, v2)])
+
+
+def value(x):
+    if isinstance(x, (LpVariable, LpAffineExpression)):
+        return x.value()
+    return x
 
 
 class _Solver:
@@ -314,6 +360,20 @@ class LpProblem:
     def variables(self):
         return Snapshot(self).variables
 
+    def setObjective(self, obj):
+        if isinstance(obj, LpVariable):
+            obj = LpAffineExpression(obj)
+        self.objective = obj
+
+    def numVariables(self):
+        return len(self.variables())
+
+    def numConstraints(self):
+        return len(self.constraints)
+
+    def variablesDict(self):
+        return {v.name: v for v in self.variables()}
+
     def solve(self, solver=None, **kw):
         snap = Snapshot(self)
         names = [v.name for v in snap.variables]
@@ -340,7 +400,7 @@ def install():
               'LpStatusInfeasible', 'LpStatusUnbounded', 'LpStatusUndefined',
               'LpContinuous', 'LpInteger', 'LpBinary', 'PulpError',
               'PulpSolverError', 'LpVariable', 'LpAffineExpression',
-              'LpConstraint', 'lpSum', 'PULP_CBC_CMD', 'LpProblem']
+              'LpConstraint', 'lpSum', 'lpDot', 'value', 'PULP_CBC_CMD', 'LpProblem']
     for n in public:
         setattr(mod, n, getattr(me, n))
     inner = types.ModuleType('pulp.pulp')
